@@ -342,6 +342,42 @@ def r7_span_start(run, F):
     run.ob("R7-SPAN-START-FIRST", "parse_singular_expression|cast site found", n_kw == 1, F.where(se), "one merge of the cast keyword's location (found %d)" % n_kw)
 
 
+def r8_derived_spans(run, F):
+    """A label placed "right before" or "right after" a location is an empty span at one of the location's own ends.  Any other
+    span derived from a location in the report builder must stay inside it: both ends are `span.start` / `span.end` of the
+    location, read as they are (no arithmetic), in order.  A span that reaches past the location can reach past the end of the
+    file, and the renderer silently drops a label it cannot place (an E100 at the end of a file without a final newline lost
+    its primary label)."""
+    n = 0
+    want = {"label_before_start": ("start", "start"), "label_after_end": ("end", "end")}
+    seen = set()
+    for p, b in sorted(F.lib.bodies.items()):
+        if "hir" not in b or not F.rel(b["file"]).endswith("alpha/error.rs"):
+            continue
+        for x in walk(b["hir"]):
+            if x.get("k") != "Struct" or not str(x.get("path", "")).endswith("ops::Range") or x.get("t") is None or "usize" not in F.lib.types[x["t"]]:
+                continue
+            n += 1
+            ends = {}
+            for f in x.get("fields", []):
+                e = hirq.unwrap_trivial(f["e"])
+                while e.get("k") == "MethodCall" and e.get("name") == "clone":
+                    e = hirq.unwrap_trivial(e["recv"])
+                inner = hirq.unwrap_trivial(e.get("e", {})) if e.get("k") == "Field" else {}
+                ends[f["name"]] = e.get("name") if e.get("k") == "Field" and e.get("name") in ("start", "end") and inner.get("k") == "Field" and inner.get("name") == "span" else None
+            fn = p.split("::")[-1]
+            pair = (ends.get("start"), ends.get("end"))
+            ok = pair in (("start", "start"), ("start", "end"), ("end", "end"))
+            if fn in want:
+                seen.add(fn)
+                ok = ok and pair == want[fn]
+            run.ob("R8-DERIVED-SPANS", "%s" % fn, ok, F.where(b, x),
+                   "a span derived from a location has the location's own ends, unmodified%s: found %s..%s" % (
+                       (" (%s..%s)" % want[fn]) if fn in want else "", pair[0] or "<computed>", pair[1] or "<computed>"))
+    run.require(seen == set(want), "error.rs: label_before_start / label_after_end not found (%s)" % sorted(seen))
+    run.ob("R8-DERIVED-SPANS", "scan", n >= 2, "src/alpha/error.rs", "%d spans built in the report builder" % n)
+
+
 def check(run):
     F = run.facts("B")
     r1_codes(run, F)
@@ -351,3 +387,4 @@ def check(run):
     r5_units(run, F)
     r6_config(run, F)
     r7_span_start(run, F)
+    r8_derived_spans(run, F)
